@@ -21,12 +21,13 @@ import (
 
 type c03World struct {
 	*storSim
-	owner       chain.Account
-	provs       []chain.Account
-	registered  map[string]bool
-	stopped     map[string]bool // pair keys that stopped proving
-	nontrivial  bool
-	rewardsPaid int
+	owner           chain.Account
+	provs           []chain.Account
+	registered      map[string]bool
+	stopped         map[string]bool // pair keys that stopped proving
+	nontrivial      bool
+	secondDenomPaid bool
+	rewardsPaid     int
 }
 
 func must2(r chain.Result) {
@@ -37,6 +38,10 @@ func must2(r chain.Result) {
 
 // fundGauge mirrors BuyStorage's gauge creation (payer -> module, NewGauge, module -> gauge account).
 func (w *c03World) fundGauge(payer chain.Account, amount int64, dur time.Duration) {
+	w.fundGauge2(payer, amount, 0, dur)
+}
+
+func (w *c03World) fundGauge2(payer chain.Account, amount, second int64, dur time.Duration) {
 	if bal := w.c.App.BankKeeper.GetBalance(w.f.Ctx, payer.Addr, "ujkl").Amount; bal.LT(sdk.NewInt(amount)) {
 		amount = bal.QuoRaw(2).Int64() // the payer cannot afford more
 		if amount <= 0 {
@@ -44,6 +49,9 @@ func (w *c03World) fundGauge(payer chain.Account, amount int64, dur time.Duratio
 		}
 	}
 	coins := sdk.NewCoins(sdk.NewInt64Coin("ujkl", amount))
+	if second > 0 { // a deposit in a second denomination in the same gauge (keeper API / genesis only; no message makes one)
+		coins = coins.Add(sdk.NewInt64Coin("uatom", second))
+	}
 	ctx, write := w.f.Ctx.CacheContext()
 	must(w.c.App.BankKeeper.SendCoinsFromAccountToModule(ctx, payer.Addr, storagetypes.ModuleName, coins))
 	g := w.c.App.StorageKeeper.NewGauge(ctx, coins, ctx.BlockTime().Add(dur))
@@ -51,7 +59,7 @@ func (w *c03World) fundGauge(payer chain.Account, amount int64, dur time.Duratio
 	must(err)
 	must(w.c.App.BankKeeper.SendCoinsFromModuleToAccount(ctx, storagetypes.ModuleName, acc, coins))
 	write()
-	w.logf("gauge funded with %d ujkl for %s", amount, dur)
+	w.logf("gauge funded with %s for %s", coins, dur)
 }
 
 func (w *c03World) rewardOracle(pre, post *rewardSnap) (string, string) {
@@ -105,8 +113,6 @@ func (w *c03World) rewardOracle(pre, post *rewardSnap) (string, string) {
 			return "C03/burn-count", fmt.Sprintf("reward block at %d: provider %s missed %d file(s), burn counter went %d -> %d", h, short(p), missedByProv[p], before, after)
 		}
 	}
-	// released amount R = decrease of all gauge accounts
-	R := new(big.Int)
 	gaugeAddrs := map[string]bool{}
 	for a := range pre.Gauges {
 		gaugeAddrs[a] = true
@@ -114,78 +120,89 @@ func (w *c03World) rewardOracle(pre, post *rewardSnap) (string, string) {
 	for a := range post.Gauges {
 		gaugeAddrs[a] = true
 	}
-	delta := map[string]*big.Int{}
-	for _, d := range pre.Bal.Diff(post.Bal) {
-		if d.Denom != "ujkl" {
-			return "C03/foreign-denom", "non-ujkl balance changed"
-		}
-		delta[d.Addr] = d.Diff.BigInt()
-		if gaugeAddrs[d.Addr] {
-			if d.Diff.IsPositive() {
-				return "C03/gauge-credited", "a gauge account gained funds in a reward block"
+	diffs := pre.Bal.Diff(post.Bal)
+	for _, denom := range []string{"ujkl", "uatom"} {
+		// released amount R = decrease of all gauge accounts, per denomination
+		R := new(big.Int)
+		delta := map[string]*big.Int{}
+		for _, d := range diffs {
+			if d.Denom != "ujkl" && d.Denom != "uatom" {
+				return "C03/foreign-denom", "a balance in a denomination no gauge holds changed"
 			}
-			R.Sub(R, d.Diff.BigInt())
-		}
-	}
-	nCounted := new(big.Int)
-	for _, c := range credit {
-		nCounted.Add(nCounted, c)
-	}
-	paid := new(big.Int)
-	counted := make([]string, 0, len(credit))
-	for p := range credit {
-		counted = append(counted, p)
-	}
-	sort.Strings(counted)
-	for a, d := range delta {
-		if gaugeAddrs[a] || a == storageModuleAddr {
-			continue
-		}
-		if credit[a] == nil {
-			return "C03/uncounted-account-paid", fmt.Sprintf("reward block at %d: %s was not counted for any file but its balance changed by %s", h, short(a), d)
-		}
-		if d.Sign() < 0 {
-			return "C03/prover-debited", fmt.Sprintf("%s lost %s in a reward block", short(a), d)
-		}
-		paid.Add(paid, d)
-	}
-	if paid.Cmp(R) > 0 {
-		return "C03/paid-exceeds-released", fmt.Sprintf("reward block at %d paid %s but only %s was released from gauges", h, paid, R)
-	}
-	get := func(a string) *big.Int {
-		if v, ok := delta[a]; ok {
-			return v
-		}
-		return new(big.Int)
-	}
-	if R.Sign() > 0 && nCounted.Sign() > 0 {
-		for _, p := range counted {
-			lo := new(big.Int).Mul(R, credit[p])
-			lo.Quo(lo, nAll)
-			lo.Sub(lo, big.NewInt(1))
-			hi := new(big.Int).Mul(R, credit[p])
-			hi.Quo(hi, nCounted)
-			hi.Add(hi, big.NewInt(1))
-			if d := get(p); d.Cmp(lo) < 0 || d.Cmp(hi) > 0 {
-				return "C03/share", fmt.Sprintf("reward block at %d released %s; prover %s counted for size %s (all listed %s, counted %s) received %s, outside [%s, %s]", h, R, short(p), credit[p], nAll, nCounted, d, lo, hi)
+			if d.Denom != denom {
+				continue
+			}
+			delta[d.Addr] = d.Diff.BigInt()
+			if gaugeAddrs[d.Addr] {
+				if d.Diff.IsPositive() {
+					return "C03/gauge-credited", "a gauge account gained funds in a reward block"
+				}
+				R.Sub(R, d.Diff.BigInt())
 			}
 		}
-		for i := 0; i < len(counted); i++ {
-			for j := i + 1; j < len(counted); j++ {
-				p, q := counted[i], counted[j]
-				x := new(big.Int).Mul(get(p), credit[q])
-				y := new(big.Int).Mul(get(q), credit[p])
-				x.Sub(x, y)
-				bound := new(big.Int).Add(credit[p], credit[q])
-				if x.CmpAbs(bound) > 0 {
-					return "C03/proportionality", fmt.Sprintf("reward block at %d: %s (size %s) received %s, %s (size %s) received %s: not proportional", h, short(p), credit[p], get(p), short(q), credit[q], get(q))
+		nCounted := new(big.Int)
+		for _, c := range credit {
+			nCounted.Add(nCounted, c)
+		}
+		paid := new(big.Int)
+		counted := make([]string, 0, len(credit))
+		for p := range credit {
+			counted = append(counted, p)
+		}
+		sort.Strings(counted)
+		for a, d := range delta {
+			if gaugeAddrs[a] || a == storageModuleAddr {
+				continue
+			}
+			if credit[a] == nil {
+				return "C03/uncounted-account-paid", fmt.Sprintf("reward block at %d: %s was not counted for any file but its balance changed by %s%s", h, short(a), d, denom)
+			}
+			if d.Sign() < 0 {
+				return "C03/prover-debited", fmt.Sprintf("%s lost %s in a reward block", short(a), d)
+			}
+			paid.Add(paid, d)
+		}
+		if paid.Cmp(R) > 0 {
+			return "C03/paid-exceeds-released", fmt.Sprintf("reward block at %d paid %s%s but only %s was released from gauges", h, paid, denom, R)
+		}
+		get := func(a string) *big.Int {
+			if v, ok := delta[a]; ok {
+				return v
+			}
+			return new(big.Int)
+		}
+		if R.Sign() > 0 && nCounted.Sign() > 0 {
+			for _, p := range counted {
+				lo := new(big.Int).Mul(R, credit[p])
+				lo.Quo(lo, nAll)
+				lo.Sub(lo, big.NewInt(1))
+				hi := new(big.Int).Mul(R, credit[p])
+				hi.Quo(hi, nCounted)
+				hi.Add(hi, big.NewInt(1))
+				if d := get(p); d.Cmp(lo) < 0 || d.Cmp(hi) > 0 {
+					return "C03/share", fmt.Sprintf("reward block at %d released %s"+denom+"; prover %s counted for size %s (all listed %s, counted %s) received %s, outside [%s, %s]", h, R, short(p), credit[p], nAll, nCounted, d, lo, hi)
 				}
 			}
+			for i := 0; i < len(counted); i++ {
+				for j := i + 1; j < len(counted); j++ {
+					p, q := counted[i], counted[j]
+					x := new(big.Int).Mul(get(p), credit[q])
+					y := new(big.Int).Mul(get(q), credit[p])
+					x.Sub(x, y)
+					bound := new(big.Int).Add(credit[p], credit[q])
+					if x.CmpAbs(bound) > 0 {
+						return "C03/proportionality", fmt.Sprintf("reward block at %d: %s (size %s) received %s, %s (size %s) received %s: not proportional", h, short(p), credit[p], get(p), short(q), credit[q], get(q))
+					}
+				}
+			}
+			w.rewardsPaid++
+			if denom != "ujkl" {
+				w.secondDenomPaid = true
+			}
 		}
-		w.rewardsPaid++
-	}
-	if len(counted) >= 2 && missedNotLast && R.Sign() > 0 {
-		w.nontrivial = true
+		if len(counted) >= 2 && missedNotLast && R.Sign() > 0 {
+			w.nontrivial = true
+		}
 	}
 	return "", ""
 }
@@ -252,10 +269,10 @@ func (w *c03World) runBlocks(blocks int, dt time.Duration) (string, string) {
 
 func TestC03(t *testing.T) {
 	rec := ev.For("C03")
-	rec.Describe("fork-mode histories: 1-4 real files (1..8192 bytes at chunk size 1024, MaxProofs 2-5), 2-6 provers (some without a provider record) joining in generated order with real Merkle proofs, a generated subset of (prover,file) pairs at generated list positions stops proving, gauges of 1..1e15 ujkl funded by the calls BuyStorage makes, reward blocks after youth with hour-scale block times, followed by further reward blocks on the state the first left behind. Oracle at each reward block from before/after snapshots: prover lists == before minus missed (sets, no duplicates); burn counters rise by exactly the number of missed files; each counted prover's payout within [floor(R*c/N_all)-1, floor(R*c/N_counted)+1]; pairwise proportionality; uncounted accounts unchanged; sum paid <= released. Non-trivial = >=2 counted provers, >=1 missed prover not in the last list position, R>0; distinct = distinct traces.",
+	rec.Describe("fork-mode histories: 1-4 real files (1..8192 bytes at chunk size 1024, MaxProofs 2-5), 2-6 provers (some without a provider record) joining in generated order with real Merkle proofs, a generated subset of (prover,file) pairs at generated list positions stops proving, gauges of 1..1e15 ujkl (a third of them with a second deposit of 1..1e12 uatom, small ones weighted up so that single shares round to zero) funded by the calls BuyStorage makes, reward blocks after youth with hour-scale block times, followed by further reward blocks on the state the first left behind. Oracle at each reward block from before/after snapshots: prover lists == before minus missed (sets, no duplicates); burn counters rise by exactly the number of missed files; per denomination each counted prover's payout within [floor(R*c/N_all)-1, floor(R*c/N_counted)+1]; pairwise proportionality; uncounted accounts unchanged; sum paid <= released. Non-trivial = >=2 counted provers, >=1 missed prover not in the last list position, R>0; distinct = distinct traces.",
 		"'share' is accepted over either denominator (all listed at block start, as the code does, or counted only)",
 		"prover-less files being dropped is not asserted here (C07/C17 cover it)")
-	c := chain.New(chain.GenesisOpts{NumAccounts: 1, Balance: sdk.NewCoins(sdk.NewInt64Coin("ujkl", 3_000_000_000_000_000)),
+	c := chain.New(chain.GenesisOpts{NumAccounts: 1, Balance: sdk.NewCoins(sdk.NewInt64Coin("ujkl", 3_000_000_000_000_000), sdk.NewInt64Coin("uatom", 3_000_000_000_000_000)),
 		Faucet: sdk.NewCoins(sdk.NewInt64Coin("ujkl", 1_000_000_000_000_000))})
 	defer c.Close()
 
@@ -316,7 +333,11 @@ func TestC03(t *testing.T) {
 		nG := rapid.IntRange(1, 3).Draw(rt, "gauges")
 		for i := 0; i < nG; i++ {
 			amt := rapid.OneOf(rapid.Int64Range(1, 1000), rapid.Int64Range(1, 1_000_000_000_000_000)).Draw(rt, "gaugeAmount")
-			w.fundGauge(w.owner, amt, time.Duration(rapid.Int64Range(1, 60).Draw(rt, "gaugeDays"))*24*time.Hour)
+			var second int64
+			if rapid.IntRange(0, 2).Draw(rt, "secondDenom") == 0 {
+				second = rapid.OneOf(rapid.Int64Range(1, 50), rapid.Int64Range(1, 1_000_000_000_000)).Draw(rt, "secondAmount")
+			}
+			w.fundGauge2(w.owner, amt, second, time.Duration(rapid.Int64Range(1, 60).Draw(rt, "gaugeDays"))*24*time.Hour)
 		}
 		blocks := int(W)*rapid.IntRange(2, 4).Draw(rt, "windows") + int(C)*2
 		if sig, msg := w.runBlocks(blocks, rapid.SampledFrom([]time.Duration{6 * time.Second, time.Hour, 7 * time.Hour}).Draw(rt, "blockTime")); sig != "" {
@@ -324,6 +345,9 @@ func TestC03(t *testing.T) {
 		}
 		if w.rewardsPaid > 0 {
 			rec.Count("histories-with-paying-reward-block")
+			if w.secondDenomPaid {
+				rec.Count("histories-paying-two-denominations")
+			}
 		}
 		rec.Case(w.nontrivial, ev.Hash(w.trace...), func() interface{} { return w.trace })
 	})
